@@ -156,6 +156,21 @@ func bigValues() []value {
 			out = append(out, value{name: fmt.Sprintf("map<string,i32>#%d/%s", size, pat), s: tbin.MapS(tbin.Sc(tbin.STRING), tbin.Sc(tbin.I32)), big: true})
 		}
 	}
+	// sequential key families: the same keys recur in loads of different sizes (stale-slot reuse scenarios)
+	for _, rng := range [][2]int64{{0, 16}, {0, 17}, {0, 32}, {0, 33}, {16, 32}, {16, 33}, {1, 17}} {
+		for _, kt := range []tbin.Type{tbin.I32, tbin.STRING} {
+			m := &tbin.Val{T: tbin.MAP, KT: kt, ET: tbin.I32}
+			for k := rng[0]; k < rng[1]; k++ {
+				if kt == tbin.STRING {
+					m.K = append(m.K, tbin.Str(fmt.Sprintf("seq%d", k)))
+				} else {
+					m.K = append(m.K, tbin.I32v(int32(k)))
+				}
+				m.L = append(m.L, tbin.I32v(int32(9000+100*rng[0]+k)))
+			}
+			out = append(out, value{name: fmt.Sprintf("map<%s,i32>#seq%d-%d", kt, rng[0], rng[1]), s: tbin.MapS(tbin.Sc(kt), tbin.Sc(tbin.I32)), v: m, big: true})
+		}
+	}
 	// structs with ids around the by-id threshold
 	for _, ids := range [][]int16{{254, 255, 256}, {256, 257, 258}, {257, 256, 255}, {1, 255, 300}, {300, 2, 256, 1}} {
 		var fs []tbin.SField
@@ -740,8 +755,20 @@ func reusePartners(val value, all []value) []value {
 			}
 		}
 	}
-	if len(out) > 5 {
-		out = out[:5]
+	// prefer partners whose keys overlap (sequential families) and keep the list bounded
+	if len(out) > 14 {
+		var seq, rest []value
+		for _, o := range out {
+			if strings.Contains(o.name, "#seq") {
+				seq = append(seq, o)
+			} else {
+				rest = append(rest, o)
+			}
+		}
+		out = append(seq, rest...)
+		if strings.Contains(val.name, "#seq") || len(out) > 14 {
+			out = out[:14]
+		}
 	}
 	return out
 }
